@@ -26,7 +26,7 @@ RULE = ('every bundled matrix name (from _submat_files()) in upper, lower and ra
         'of any shape (short/long/mixed rows, repeated letters, row letters outside the header) in an abstract layout, text rendered AND expected result computed by the model '
         '(run_C20m) under 9 line terminators; "numtok": single cell words (random over 0-9._eE+-, exponent forms, underscores, inf/nan, junk; thorough: every word of <= 4 characters over 01._e+-) read by '
         'CPython int()/float(), by the model, and as the only cell of a row by submat; "fsdir": a scratch working directory with regular files, directories, symbolic links (to files, to directories, '
-        'dangling, loops, chains of up to 42 links) and submat(name) as str or Path; names as pathlib.Path; pieces of the joined listing as unknown names; histories return object identities and the final content of every object; '
+        'dangling, loops, chains of up to 42 links) and submat(name) as str or Path; file locations and names also as another os.PathLike, a str subclass and (existing files) bytes; names as pathlib.Path; pieces of the joined listing as unknown names; histories return object identities and the final content of every object; '
         'non-trivial = distinct case with a branch marker')
 TRUSTED = ['CPython text layer (open() in text mode with universal newlines, UTF-8 decoding), str.split/strip/splitlines/'
            'upper, int(), float(), dict insertion order: modelled for ASCII and compared on every case',
@@ -485,7 +485,10 @@ def gen_fsdir(rng, names):
         ents = [[nm.swapcase(), 'f', mk()]]
     if rng.random() < 0.3:
         ents.append(['zz-other', rng.choice(['f', 'd']), mk()])
-    return {'op': 'fsdir', 'entries': ents, 'call': nm, 'aspath': rng.random() < 0.3, 'kind': kind}
+    c = {'op': 'fsdir', 'entries': ents, 'call': nm, 'aspath': rng.random() < 0.3, 'kind': kind}
+    if not c['aspath'] and rng.random() < 0.3:
+        c['via'] = rng.choice(['pathlike', 'strsub'])
+    return c
 
 
 def impl_fsdir(case):
@@ -509,7 +512,7 @@ def impl_fsdir(case):
                     return ['no-symlinks-here']          # a file system without symbolic links: nothing to compare
         tag = 'user' if os.path.isfile(call) else 'name'
         try:
-            m = submat(pathlib.Path(call) if aspath else call)
+            m = submat(_transport(call, case, aspath))
         except FileNotFoundError as e:
             msg = str(e)
             mark = 'available matrices: '
@@ -671,12 +674,14 @@ def gen_file(rng, big=False, pools=None):
         lines.append(_comment(rng) if rng.random() < 0.5 else _blank(rng))
     c = {'op': 'file', 'lines': lines, 'nl': rng.choice(['\n'] * 8 + LINE_ENDS), 'nofinal': rng.random() < 0.15,
          'aspath': rng.random() < 0.4}      # location given as pathlib.Path instead of str
+    if not c['aspath'] and rng.random() < 0.3:
+        c['via'] = rng.choice(['pathlike', 'strsub', 'bytes'])     # ... or as another os.PathLike, a str subclass, bytes
     return c
 
 
 def mutate(rng, c):
     """abstract mutations that leave the modelled domain or hit its edge"""
-    c = {'op': 'file', 'lines': [dict(l) for l in c['lines']], 'nl': c['nl'], 'nofinal': c['nofinal'], 'aspath': c.get('aspath', False)}
+    c = {'op': 'file', 'lines': [dict(l) for l in c['lines']], 'nl': c['nl'], 'nofinal': c['nofinal'], 'aspath': c.get('aspath', False), 'via': c.get('via')}
     wl = [l for l in c['lines'] if l['k'] == 'w']
     kind = rng.choice(['dupcol', 'duprow', 'oneword', 'junk', 'exotic', 'hashletter', 'noheader', 'empty', 'dotletter', 'nonascii'])
     if kind == 'dupcol' and len(wl[0]['w']) > 1:
@@ -889,6 +894,33 @@ def _isolate(submat):
         cc()
 
 
+class _PathLike:
+    """an os.PathLike that is neither str nor pathlib.Path"""
+    def __init__(self, text):
+        self.text = text
+
+    def __fspath__(self):
+        return self.text
+
+
+class _StrSub(str):
+    pass
+
+
+def _transport(text, case, aspath=None):
+    """the object handed to submat for the path / name text: str, pathlib.Path, another os.PathLike, a str subclass, bytes"""
+    if case.get('aspath') if aspath is None else aspath:
+        return pathlib.Path(text)
+    via = case.get('via')
+    if via == 'pathlike':
+        return _PathLike(text)
+    if via == 'strsub':
+        return _StrSub(text)
+    if via == 'bytes':
+        return os.fsencode(text)
+    return text
+
+
 def path_text(name):
     """os.fspath(pathlib.Path(name)): what submat sees of a Path that is no file (pathlib normalises '', './x', 'x/', 'a//b')"""
     return os.fspath(pathlib.PurePosixPath(name))
@@ -1073,7 +1105,7 @@ def impl(case):
             os.rmdir(d)
     content = numfile_text(case) if case['op'] == 'numfile' else mfile_text(case) if case['op'] == 'mfile' else render(case)
     fd, p = tempfile.mkstemp(prefix='C20-file-')
-    arg = pathlib.Path(p) if case.get('aspath') else p
+    arg = _transport(p, case)
     try:
         with os.fdopen(fd, 'wb') as f:
             f.write(file_bytes(content))
@@ -1515,7 +1547,7 @@ def nontrivial(case, got):
             return None
         return ['tok:int=%s,float=%s' % ('err' if isinstance(got[0], dict) and 'e' in got[0] else 'ok', 'err' if isinstance(got[1], dict) and 'e' in got[1] else 'ok')]
     if case['op'] == 'fsdir':
-        return ['fs:' + str(case.get('kind')), 'fs:' + (got[0] if isinstance(got, list) and got else '?')] + (['path-arg'] if case.get('aspath') else [])
+        return ['fs:' + str(case.get('kind')), 'fs:' + (got[0] if isinstance(got, list) and got else '?')] + (['path-arg'] if case.get('aspath') else ['via:' + case['via']] if case.get('via') else [])
     if case['op'] == 'cwdfile':
         fname, call, txt, aspath = cwd_norm(case)
         b = fname.upper() in _bundled()
@@ -1563,6 +1595,8 @@ def nontrivial(case, got):
             marks.append('tab-sep')
     if case.get('aspath'):
         marks.append('path-arg')
+    elif case.get('via'):
+        marks.append('via:' + str(case.get('via')))
     if case.get('nl', '\n') != '\n':
         marks.append('nl=' + repr(case.get('nl')))
     if case.get('nofinal'):
@@ -1619,7 +1653,7 @@ def python_snippet(case):
         ls = ['import os, tempfile, pathlib; from sugar.data import submat', 'os.chdir(tempfile.mkdtemp())']
         for n, k, p in ents:
             ls.append('open(%r, "wb").write(%r)' % (n, file_bytes(p)) if k == 'f' else 'os.mkdir(%r)' % n if k == 'd' else 'os.symlink(%r, %r)' % (p, n))
-        ls.append('print(os.path.isfile(%r), submat(%s))' % (call, 'pathlib.Path(%r)' % call if aspath else repr(call)))
+        ls.append('print(os.path.isfile(%r), submat(%s))   # argument given as %s' % (call, 'pathlib.Path(%r)' % call if aspath else repr(call), 'pathlib.Path' if aspath else case.get('via') or 'str'))
         return '\n'.join(ls)
     if case['op'] == 'hist':
         lines = ['import os, tempfile, pathlib', 'from sugar.data import submat',
@@ -1640,8 +1674,9 @@ def python_snippet(case):
         return 'from sugar.data import submat; print(submat(%r))' % case['name']
     return ("import tempfile, os, pathlib; from sugar.data import submat\n"
             "f = tempfile.NamedTemporaryFile('wb', delete=False); f.write(%r); f.close()\n"
-            "try:\n    print(submat(%s))\nfinally:\n    os.remove(f.name)") % (file_bytes(numfile_text(case) if case['op'] == 'numfile' else mfile_text(case) if case['op'] == 'mfile' else render(case)),
-                                                                                  'pathlib.Path(f.name)' if case.get('aspath') else 'f.name')
+            "try:\n    print(submat(%s))   # argument given as %s\nfinally:\n    os.remove(f.name)") % (file_bytes(numfile_text(case) if case['op'] == 'numfile' else mfile_text(case) if case['op'] == 'mfile' else render(case)),
+                                                                                  'pathlib.Path(f.name)' if case.get('aspath') else 'os.fsencode(f.name)' if case.get('via') == 'bytes' else 'f.name',
+                                                                                  'pathlib.Path' if case.get('aspath') else case.get('via') or 'str')
 
 
 LEVEL_TEXT = ('Machine-checked Coq theorems over the regenerated raw bytes of all bundled matrix files (complete enumeration, re-checked '
